@@ -339,6 +339,7 @@ type buildOpts struct {
 	GC          bool
 	PreferIndex bool
 	SnapLoad    bool
+	Session     *Vars  // a long-lived Project (watch mode): Run(Target), the sources change to these, Reload, Run(Then)
 	GCAfterRun  bool   // Run, then GC on the SAME loaded Project (a long-lived process: REPL, watch mode, library use)
 	Interrupt   string // the build runs in a child process that dies just before emitting this file
 }
@@ -403,6 +404,24 @@ func buildRaw(root string, v Vars, o buildOpts) *buildResult {
 			panic(perr)
 		}
 		res.RunErr = proj.Run(l, &dawn.RunOptions{Always: o.Always, DryRun: o.Dry})
+		if o.Session != nil {
+			// the sources change while the project stays loaded; it is reloaded, as watch mode does
+			for p, c := range o.Session.render() {
+				full := filepath.Join(root, filepath.FromSlash(p))
+				if strings.HasPrefix(c, symlinkPrefix) {
+					continue
+				}
+				if old, err := os.ReadFile(full); err != nil || string(old) != c {
+					os.MkdirAll(filepath.Dir(full), 0o755)
+					os.WriteFile(full, []byte(c), 0o644)
+				}
+			}
+			if err := proj.Reload(); err != nil {
+				res.LoadErr = err
+				res.After = readTree(root)
+				return res
+			}
+		}
 		if o.Then != "" {
 			// a second run on the same Project value, without reloading
 			l2, _ := label.Parse(o.Then)
